@@ -32,11 +32,12 @@ class Ctx:
     """generation context: which variables shape parameters may depend on (name->(dim,lo,hi)),
     probability of dependence, lattice snapping."""
 
-    def __init__(self, dep=None, pdep=0.0, lattice=False, far=False):
+    def __init__(self, dep=None, pdep=0.0, lattice=False, far=False, pydef=False):
         self.dep = dep or {}
         self.pdep = pdep
         self.lattice = lattice
         self.far = far
+        self.pydef = pydef        # two-variable functions may declare a Python default for their second argument
 
 
 @st.composite
@@ -58,7 +59,10 @@ def _vec_param(draw, ctx, base, max_move):
             parts.append([[_r(draw(num(-max_move / 2, max_move / 2)) / (sp * dvn), 4) for _ in range(dvn)] for _ in range(d)])
         v0 = [_r(base[i] - sum(parts[0][i][j] * ctx.dep[va][1] for j in range(ctx.dep[va][0]))
                  - sum(parts[1][i][j] * ctx.dep[vb][1] for j in range(ctx.dep[vb][0])), 4) for i in range(d)]
-        return {"k": "affine2", "var": va, "var2": vb, "v0": v0, "V1": parts[0], "V2": parts[1]}
+        out = {"k": "affine2", "var": va, "var2": vb, "v0": v0, "V1": parts[0], "V2": parts[1]}
+        if ctx.pydef and vb != "t" and draw(st.booleans()):
+            out["pydef"] = True        # def f(va, vb=<default>): the library must still use a supplied / fixed vb
+        return out
     var = draw(st.sampled_from(names))
     dv, lo, hi = ctx.dep[var]
     span = max(hi - lo, 1e-9)
@@ -144,6 +148,7 @@ def leaf(draw, dim, ctx, hint, force=None):
                     "c2": shifted([o[0] + d2[0], o[1] + d2[1]])}
         # fixed polygons (ShapelyPolygon cannot depend on parameters)
         shape = draw(st.sampled_from(["L", "ngon", "holed", "star"]))
+        dup = draw(st.integers(0, 7)) if draw(st.integers(0, 4)) == 0 else None      # a repeated vertex
         rot = 0.0 if ctx.lattice else draw(num(0, 6.283))
         h = s / 2
 
@@ -154,7 +159,7 @@ def leaf(draw, dim, ctx, hint, force=None):
             ring = [(-h, -h), (h, -h), (h, 0), (0, 0), (0, h), (-h, h)]
             if draw(st.booleans()):
                 ring = ring[::-1]
-            return {"t": "poly", "var": var, "verts": place(ring), "hole": None}
+            return {"t": "poly", "var": var, "verts": place(ring), "hole": None, "dup": dup}
         if shape == "star":
             # irregular star-shaped polygon (radii between 0.45h and h): its vertex triangulation has
             # triangles that the polygon covers only partly
@@ -162,15 +167,15 @@ def leaf(draw, dim, ctx, hint, force=None):
             a0 = draw(num(0, 6.283))
             rad = [draw(num(0.45, 1.0)) for _ in range(m)]
             ring = [(h * rad[i] * math.cos(a0 + 2 * math.pi * i / m), h * rad[i] * math.sin(a0 + 2 * math.pi * i / m)) for i in range(m)]
-            return {"t": "poly", "var": var, "verts": place(ring), "hole": None}
+            return {"t": "poly", "var": var, "verts": place(ring), "hole": None, "dup": dup}
         if shape == "ngon":
             m = draw(st.integers(3, 7))
             a0 = draw(num(0, 6.283))
             ring = [(h * math.cos(a0 + 2 * math.pi * i / m), h * math.sin(a0 + 2 * math.pi * i / m)) for i in range(m)]
-            return {"t": "poly", "var": var, "verts": place(ring), "hole": None}
+            return {"t": "poly", "var": var, "verts": place(ring), "hole": None, "dup": dup}
         g = h * draw(num(0.25, 0.6))
         return {"t": "poly", "var": var, "verts": place([(-h, -h), (h, -h), (h, h), (-h, h)]),
-                "hole": place([(-g, -g), (-g, g), (g, g), (g, -g)])}
+                "hole": place([(-g, -g), (-g, g), (g, g), (g, -g)]), "dup": dup}
     # dim 3
     kind = draw(st.sampled_from(["sphere", "sphere", "mesh"]))
     if kind == "sphere":
@@ -334,7 +339,7 @@ def param_rows(draw, names, kmax=5, ks=(0, 1, 1, 2, 3, 5)):
 
 @st.composite
 def domain_case(draw, tier="quick", kinds=("interior", "boundary", "product", "depproduct", "bproduct"),
-                dims=(1, 2, 2, 2, 3), max_depth=None, pdep=0.45, min_ratio=0.08, pvar_choices=None):
+                dims=(1, 2, 2, 2, 3), max_depth=None, pdep=0.45, min_ratio=0.08, pvar_choices=None, pydef=False):
     """top-level domain spec + the parameter variables it may depend on.
     Returns dict(E=spec, kind=..., pvars=[names]) ; E's free variables are a subset of pvars."""
     max_depth = max_depth if max_depth is not None else (3 if tier == "quick" else 4)
@@ -346,7 +351,7 @@ def domain_case(draw, tier="quick", kinds=("interior", "boundary", "product", "d
     if use_p:
         for n in draw(st.sampled_from(list(pvar_choices) if pvar_choices else [["p"], ["p"], ["q"], ["p", "q"]])):
             dep[n] = (PVARS[n], 0.0, 1.0)
-    ctx = Ctx(dep, pdep if dep else 0.0, lattice, far)
+    ctx = Ctx(dep, pdep if dep else 0.0, lattice, far, pydef)
     depth = draw(st.integers(0, max_depth))
     if kind in ("interior", "boundary"):
         dim = draw(st.sampled_from(list(dims)))
@@ -416,6 +421,8 @@ def features(E):
     f = set()
     for n in rg.walk(E):
         f.add(n["t"])
+        if n["t"] == "poly" and n.get("dup") is not None:
+            f.add("poly-dup")
         if n["t"] == "par":
             pe = {}
             # orientation at parameter value 0 of every variable
